@@ -458,3 +458,260 @@ Definition get_by_one_request (d : db) (rw : rw_ctx) (ctx : rg_ctx) (st : rw_sta
     | RVal (l, built') => RVal (l, mkRwState (st_sharing st) built')
     | REmpty => REmpty | RBad => RBad | RKeyError => RKeyError
     end.
+
+(* ================================================================ allocation_candidate: merging the groups *)
+(* AllocationRequestResource.__eq__ / AllocationRequest.__eq__ (anchor NOT compared) *)
+Definition rr_eqb (a b : rreq) : bool := (rr_rp a =? rr_rp b) && (rr_rc a =? rr_rc b) && (rr_amt a =? rr_amt b).
+Definition same_rrs (a b : list rreq) : bool :=
+  forallb (fun x => existsb (rr_eqb x) b) a && forallb (fun x => existsb (rr_eqb x) a) b.
+Definition map_in (m : list (Z * list Z)) (kv : Z * list Z) : bool :=
+  existsb (fun kv' => (fst kv =? fst kv') && set_eqZ (snd kv) (snd kv')) m.
+Definition same_maps (a b : list (Z * list Z)) : bool := forallb (map_in b) a && forallb (map_in a) b.
+Definition same_creq (a b : creq) : bool := same_rrs (cr_rrs a) (cr_rrs b) && same_maps (cr_maps a) (cr_maps b).
+
+(* Hazard 1. _alloc_candidates_multiple_providers returns a set: of several equal AllocationRequests with
+   different anchors only the first one iterated survives, so later groups can be merged under that anchor only *)
+Definition anchor_ambiguous (l : list creq) : bool :=
+  existsb (fun a => existsb (fun b => same_creq a b && negb (cr_anchor a =? cr_anchor b)) l) l.
+
+(* _satisfies_group_policy *)
+Definition satisfies_group_policy (policy : gpolicy) (num_granular : Z) (combo : list (rgroup * creq)) : bool :=
+  match policy with
+  | GPIsolate =>
+      lenZ (dedup (flat_map (fun gc => if use_same_provider (fst gc)
+                                       then match cr_maps (snd gc) with (_, ps) :: _ => ps | [] => [] end
+                                       else []) combo)) =? num_granular
+  | _ => true
+  end.
+
+(* _get_ancestors_by_one_uuid *)
+Fixpoint ancestors (fuel : nat) (d : db) (u : Z) : list Z :=
+  u :: match fuel with
+       | O => []
+       | S f => match parent_of d u with Some p => ancestors f d p | None => [] end
+       end.
+(* _check_same_subtree *)
+Definition check_same_subtree (d : db) (us : list Z) : bool :=
+  match us with
+  | [_] => true
+  | _ => existsb (fun u => forallb (fun w => memZ u (ancestors (length (rps d)) d w)) us) us
+  end.
+(* _satisfies_same_subtree *)
+Definition satisfies_same_subtree (d : db) (ssts : list (list Z)) (combo : list creq) : bool :=
+  forallb (fun suffixes =>
+             check_same_subtree d
+               (dedup (flat_map (fun c => flat_map (fun kv => if memZ (fst kv) suffixes then snd kv else [])
+                                                   (cr_maps c)) combo))) ssts.
+
+(* _consolidate_allocation_requests: amounts of the same (provider, class) are summed into the first entry *)
+Fixpoint add_rr (acc : list rreq) (x : rreq) : list rreq :=
+  match acc with
+  | [] => [x]
+  | y :: r => if (rr_rp y =? rr_rp x) && (rr_rc y =? rr_rc x)
+              then mkRreq (rr_rp y) (rr_rc y) (rr_amt y + rr_amt x) (rr_grp y) (rr_obj y) :: r
+              else y :: add_rr r x
+  end.
+Fixpoint add_map (acc : list (Z * list Z)) (kv : Z * list Z) : list (Z * list Z) :=
+  match acc with
+  | [] => [kv]
+  | y :: r => if fst y =? fst kv then (fst y, unionZ (snd y) (snd kv)) :: r else y :: add_map r kv
+  end.
+Definition consolidate_allocation_requests (combo : list creq) : creq :=
+  mkCreq (match combo with c :: _ => cr_anchor c | [] => -1 end)
+         (fold_left add_rr (flat_map cr_rrs combo) [])
+         (fold_left add_map (flat_map cr_maps combo) []).
+
+(* RequestWideSearchContext.exceeds_capacity, against the provider summaries (capacity = int(..)) *)
+Definition exceeds_capacity (d : db) (c : creq) : bool :=
+  existsb (fun x => match find_inv d (rr_rp x) (rr_rc x) with
+                    | Some i => (cap_trunc i <? usage d (rr_rp x) (rr_rc x) + rr_amt x) || (i_max i <? rr_amt x)
+                    | None => true
+                    end) (cr_rrs c).
+
+(* the combinations of _merge_candidates that reach _consolidate_allocation_requests, over all anchors *)
+Definition merge_combos (d : db) (rw : rw_ctx) (cands : list (rgroup * list creq)) : list (list creq) :=
+  let anchors := dedup (flat_map (fun gl => map cr_anchor (snd gl)) cands) in
+  let num_granular := lenZ (filter (fun gl => use_same_provider (fst gl)) cands) in
+  flat_map (fun a =>
+    let lists := map (fun gl => map (pair (fst gl)) (filter (fun c => cr_anchor c =? a) (snd gl))) cands in
+    if existsb is_nil lists then [] else
+    map (map snd)
+        (filter (fun combo => satisfies_group_policy (rw_policy rw) num_granular combo
+                              && satisfies_same_subtree d (rw_same_subtrees rw) (map snd combo))
+                (product lists))) anchors.
+
+(* Hazard 2. copy_arr_if_needed copies only for group_policy=none: otherwise `arrs_by_rp_rc[key].amount +=`
+   updates the first group's AllocationRequestResource object itself, which corrupts every other
+   combination (and every already produced result) that uses the same object *)
+Definition same_obj (a b : rreq) : bool :=
+  (rr_grp a =? rr_grp b) && (rr_rp a =? rr_rp b) && (rr_rc a =? rr_rc b) && (rr_obj a =? rr_obj b).
+Fixpoint mutated_objs (seen : list rreq) (l : list rreq) : list rreq :=
+  match l with
+  | [] => []
+  | x :: r => match find (fun y => (rr_rp y =? rr_rp x) && (rr_rc y =? rr_rc x)) seen with
+              | Some y => y :: mutated_objs seen r
+              | None => mutated_objs (seen ++ [x]) r
+              end
+  end.
+Definition arr_mutation_hazard (policy : gpolicy) (combos : list (list creq)) : bool :=
+  match policy with
+  | GPNone => false
+  | _ => let flat := map (flat_map cr_rrs) combos in
+         existsb (fun c => existsb (fun x => 2 <=? lenZ (filter (existsb (same_obj x)) flat)) (mutated_objs [] c)) flat
+  end.
+
+(* ProviderSummary of one provider: every inventory with capacity int((total - reserved) * ratio) and usage *)
+Definition summary_of (d : db) (r : rp) : psum :=
+  mkPsum (rp_uuid r)
+         (map (fun i => (i_rc i, cap_trunc i, usage d (i_rp i) (i_rc i))) (filter (fun i => i_rp i =? rp_uuid r) (invs d)))
+         (traits_of d (rp_uuid r)) (rp_parent r) (rp_root r).
+
+(* _merge_candidates, after the hazard checks: (allocation requests, provider summaries) *)
+Definition merge_candidates (d : db) (built : list Z) (combos : list (list creq)) : list creq * list psum :=
+  let areqs := dedup_by same_creq
+                 (filter (fun c => negb (exceeds_capacity d c)) (map consolidate_allocation_requests combos)) in
+  match areqs with
+  | [] => ([], [])
+  | _ => let tree_uuids := dedup (flat_map (fun c => map (fun x => root_of d (rr_rp x)) (cr_rrs c)) areqs) in
+         (areqs, map (summary_of d) (filter (fun r => memZ (rp_root r) built && memZ (rp_root r) tree_uuids) (rps d)))
+  end.
+
+(* RequestWideSearchContext.exclude_nested_providers *)
+Definition exclude_nested_providers (d : db) (rw : rw_ctx) (x : list creq * list psum) : list creq * list psum :=
+  if rw_nested_aware rw || negb (rw_has_trees rw) then x else
+  let kept := filter (fun c => let us := dedup (map rr_rp (cr_rrs c)) in
+                               lenZ us =? lenZ (dedup (map (root_of d) us))) (fst x) in
+  let all_rps := flat_map (fun c => map rr_rp (cr_rrs c)) kept in
+  (kept, filter (fun s => memZ (ps_rp s) all_rps) (snd x)).
+
+(* RequestWideSearchContext.limit_results with randomize_allocation_candidates = False, on an abstract
+   list: the order in which Python produces the allocation requests is NOT modelled *)
+Definition limit_results (d : db) (limit : option Z) (x : list creq * list psum) : list creq * list psum :=
+  match limit with
+  | Some n =>
+      if (0 <? n) && (n <? lenZ (fst x)) then
+        let kept := firstn (Z.to_nat n) (fst x) in
+        let roots := flat_map (fun c => map (fun r => root_of d (rr_rp r)) (cr_rrs c)) kept in
+        (kept, filter (fun s => memZ (ps_root s) roots) (snd x))
+      else x
+  | None => x
+  end.
+
+(* the `for suffix, group in groups.items()` loop of _get_by_requests *)
+Fixpoint groups_loop (d : db) (rw : rw_ctx) (st : rw_state) (gs : list rgroup) (acc : list (rgroup * list creq))
+  : cres (list (rgroup * list creq) * rw_state) :=
+  match gs with
+  | [] => RVal (rev acc, st)
+  | g :: rest =>
+      match mk_rg_ctx d g with
+      | RVal ctx =>
+          match get_by_one_request d rw ctx st with
+          | RVal ([], _) => REmpty
+          | RVal (l, st') => groups_loop d rw st' rest ((g, l) :: acc)
+          | REmpty => REmpty | RBad => RBad | RKeyError => RKeyError
+          end
+      | REmpty => REmpty | RBad => RBad | RKeyError => RKeyError
+      end
+  end.
+
+(* ================================================================ handler *)
+(* schemas/allocation_candidate.py GET_SCHEMA_1_x, lib.RequestWideParams.from_request,
+   lib.RequestGroup.dict_from_request and the group_policy check of the handler: false = 400 *)
+Definition group_wf (v : Z) (g : rgroup) : bool :=
+  ((g_suffix g =? 0) || (25 <=? v))
+  && (is_nil (g_required g) && is_nil (g_forbidden g) || (17 <=? v))
+  && (is_nil (g_forbidden g) || (22 <=? v))
+  && (forallb (fun any => lenZ any =? 1) (g_required g) || (39 <=? v))
+  && forallb (fun any => negb (is_nil any)) (g_required g)
+  && (is_nil (g_member_of g) && is_nil (g_forbidden_aggs g) || (21 <=? v))
+  && ((lenZ (g_member_of g) <=? 1) || (24 <=? v))
+  && (is_nil (g_forbidden_aggs g) || (32 <=? v))
+  && (match g_in_tree g with Some _ => 31 <=? v | None => true end)
+  && forallb (fun x => 1 <=? snd x) (g_resources g)
+  (* _check_forbidden (from 1.22) *)
+  && negb (existsb (fun any => forallb (fun t => memZ t (g_forbidden g)) any) (g_required g)).
+
+Definition query_wf (v : Z) (q : query) : bool :=
+  let gs := qy_groups q in
+  let suffixes := map g_suffix gs in
+  let sst := concat (qy_same_subtree q) in
+  negb (is_nil gs)
+  && forallb (group_wf v) gs
+  && (lenZ (dedup suffixes) =? lenZ suffixes)
+  && ((25 <=? v) || memZ 0 suffixes)                                     (* "required": ["resources"] *)
+  && (match qy_policy q with GPAbsent => true | _ => 25 <=? v end)
+  && (match qy_limit q with Some n => (16 <=? v) && (1 <=? n) | None => true end)
+  && (is_nil (qy_root_required q) && is_nil (qy_root_forbidden q) || (35 <=? v))
+  && is_nil (interZ (qy_root_required q) (qy_root_forbidden q))
+  && (is_nil (qy_same_subtree q) || (36 <=? v))
+  && negb (memZ 0 sst)
+  && (if 36 <=? v then
+        existsb (fun g => negb (is_nil (g_resources g))) gs                (* _check_for_one_resources *)
+        && forallb (fun g => negb (is_nil (g_resources g)) || memZ (g_suffix g) sst) gs   (* _check_resourceless_suffix *)
+        && subsetZ sst suffixes                                            (* _check_actual_suffix *)
+      else forallb (fun g => negb (is_nil (g_resources g))) gs)            (* _check_for_orphans *)
+  && (match qy_policy q with
+      | GPAbsent => lenZ (filter use_same_provider gs) <=? 1
+      | _ => true
+      end).
+
+(* _transform_allocation_requests_* / _transform_provider_summaries: what the response shows at version v *)
+Definition transform (v : Z) (q : query) (x : list creq * list psum) : cand_result :=
+  let requested := flat_map (fun g => map fst (g_resources g)) (qy_groups q) in
+  COk (map (fun c => mkCreq (-1) (cr_rrs c) (if 34 <=? v then cr_maps c else [])) (fst x))
+      (map (fun s => mkPsum (ps_rp s)
+                            (filter (fun r => (27 <=? v) || memZ (fst (fst r)) requested) (ps_res s))
+                            (if 17 <=? v then ps_traits s else [])
+                            (if 29 <=? v then ps_parent s else None)
+                            (if 29 <=? v then ps_root s else -1)) (snd x)).
+
+(* AllocationCandidates._get_by_requests (without limit_results) *)
+Definition get_by_requests (d : db) (v : Z) (q : query) : cand_result :=
+  match process_anchor_traits d q with
+  | RBad => CErr 400
+  | REmpty => COk [] []
+  | RKeyError => CKeyError
+  | RVal anchors =>
+      let rw := mkRwCtx (has_provider_trees d) (29 <=? v) anchors (qy_policy q) (qy_same_subtree q) in
+      match groups_loop d rw (mkRwState (get_sharing_providers d) []) (qy_groups q) [] with
+      | RBad => CErr 400
+      | REmpty => COk [] []
+      | RKeyError => CKeyError
+      | RVal (cands, st) =>
+          if (2 <=? lenZ cands) && existsb (fun gl => anchor_ambiguous (snd gl)) cands then COrderDependent 1 else
+          let combos := merge_combos d rw cands in
+          if arr_mutation_hazard (rw_policy rw) combos then COrderDependent 2 else
+          transform v q (exclude_nested_providers d rw (merge_candidates d (st_built st) combos))
+      end
+  end.
+
+(* handlers/allocation_candidate.py:list_allocation_candidates on a parsed query (limit: see limit_results) *)
+Definition candidates (v : Z) (q : query) (d : db) : cand_result :=
+  if v <? 10 then CErr 404 else
+  if negb (query_wf v q) then CErr 400 else
+  get_by_requests d v q.
+
+(* ================================================================ comparison with observed responses *)
+Definition res_eqb (a b : Z * Z * Z) : bool :=
+  (fst (fst a) =? fst (fst b)) && (snd (fst a) =? snd (fst b)) && (snd a =? snd b).
+Definition psum_eqb (a b : psum) : bool :=
+  (ps_rp a =? ps_rp b)
+  && forallb (fun x => existsb (res_eqb x) (ps_res b)) (ps_res a) && forallb (fun x => existsb (res_eqb x) (ps_res a)) (ps_res b)
+  && set_eqZ (ps_traits a) (ps_traits b) && oeqb (ps_parent a) (ps_parent b) && (ps_root a =? ps_root b).
+Definition set_eq_by {A} (eqb : A -> A -> bool) (a b : list A) : bool :=
+  (lenZ a =? lenZ b) && forallb (fun x => existsb (eqb x) b) a && forallb (fun x => existsb (eqb x) a) b.
+(* 0 = agree, 1 = disagree, 2 / 3 = the model says "order dependent" (kind 1 / 2) and the service answered 200 *)
+Definition cand_check (model observed : cand_result) : Z :=
+  match model, observed with
+  | CErr a, CErr b => if a =? b then 0 else 1
+  | CKeyError, CKeyError => 0
+  | COrderDependent w, COk _ _ => 1 + w
+  | COk a s, COk a' s' => if set_eq_by same_creq a a' && set_eq_by psum_eqb s s' then 0 else 1
+  | _, _ => 1
+  end.
+Definition list_check (model : option (list Z)) (observed : option (list Z)) : Z :=
+  match model, observed with
+  | None, None => 0
+  | Some a, Some b => if (lenZ a =? lenZ b) && set_eqZ a b then 0 else 1
+  | _, _ => 1
+  end.
